@@ -471,7 +471,73 @@ func main() {
 		ringCaseOf(c, 6, nil, func(i int) int { return seq[i] })
 	})
 	logKeys(stt)
-	family.half, family.keyed = false, false
+	family.half = false
+	// rings wholly outside: the boundary never enters the open box and the region does not hold the box (a ring
+	// around the whole box is neither inside nor outside; it is left out). They may touch the box from outside -
+	// share a corner, run along a side - and still yield nothing, through every entry point.
+	for n := 3; n <= 4; n++ {
+		n := n
+		sto := r.Explore(fmt.Sprintf("outside-rings-%d", n), fmt.Sprintf("box [1,3]^2 x all simple rings of %d grid vertices that do not enter the open box and do not surround it (touching corners and sides included), as given and reversed: Ring / Polygon / MultiPolygon / Geometry return nothing", n), mc.Opts{MaxDev: -1, Split: 2, MaxFails: 2000000, StopAfter: 1 << 30}, func(c *mc.Ctx) {
+			ring := make(orb.Ring, 0, n+1)
+			ir := make([]ip, n)
+			for i := 0; i < n; i++ {
+				p, e := gpt(c.Choose(G * G))
+				ring = append(ring, p)
+				ir[i] = e
+			}
+			if !simple(ir) {
+				c.Skip()
+				return
+			}
+			for i := range ir {
+				if entersOpen(ib, ir[i], ir[(i+1)%n]) {
+					c.Skip()
+					return
+				}
+			}
+			if in, on := exact.InRingI(ir, ip{2, 2}); in || on {
+				c.Skip() // the ring surrounds the box
+				return
+			}
+			ring = append(ring, ring[0])
+			o := orb.CCW
+			if exact.Area2I(ir) < 0 {
+				o = orb.CW
+			}
+			key := ringKey(ring, o)
+			cl := "outside-not-empty"
+			switch {
+			case tangency(ib, ir):
+				cl = "smartclip:interior-tangency:families"
+			case cornerPass(ib, ir):
+				cl = "smartclip:corner-pass-through:families"
+			}
+			desc := fmt.Sprintf("key=%s box=%v orientation=%d ring=%v", key, ibox, o, ring)
+			touches := false
+			for _, p := range ring {
+				if ibox.Contains(p) {
+					touches = true
+				}
+			}
+			if got := smartclip.Ring(ibox, ring.Clone(), o); len(got) != 0 {
+				c.Failf(cl, "smartclip.Ring of a ring wholly outside the box = %v | %s", got, desc)
+			}
+			if got := smartclip.Polygon(ibox, orb.Polygon{ring.Clone()}, o); len(got) != 0 {
+				c.Failf(cl, "smartclip.Polygon of a ring wholly outside the box = %v | %s", got, desc)
+			}
+			if got := smartclip.MultiPolygon(ibox, orb.MultiPolygon{{ring.Clone()}}, o); len(got) != 0 {
+				c.Failf(cl, "smartclip.MultiPolygon of a ring wholly outside the box = %v | %s", got, desc)
+			}
+			if got := smartclip.Geometry(ibox, ring.Clone(), o); got != nil {
+				c.Failf(cl, "smartclip.Geometry of a ring wholly outside the box = %v | %s", got, desc)
+			}
+			if touches {
+				c.NonTrivial()
+			}
+		})
+		logKeys(sto)
+	}
+	family.keyed = false
 	if dumpKeys {
 		sort.Strings(keyLog)
 		byClass := map[string][]string{}
